@@ -337,7 +337,7 @@ proof fn law_state0_is_input(gs: Seq<Vec<Rule>>, p: Seq<Word>)
 //@ loop_proof_end apply_rule_groups 1
     assert(rules@.take(rules@.len() as int) =~= rules@);
 //@ end
-//@ proof_at apply_rule_groups 0 let mut res_word = word.clone();
+//@ loop_proof_start apply_rule_groups 1
     assert(rules@.take(0) =~= Seq::<Vec<Rule>>::empty());
 //@ end
 
@@ -392,7 +392,7 @@ proof fn law_state0_is_input(gs: Seq<Vec<Rule>>, p: Seq<Word>)
     assert(rule_group@.take(rule_group@.len() as int) =~= rule_group@);
     lemma_fold_groups_step(rules@, i as int, pv(*phrase)[j as int]);
 //@ end
-//@ proof_at apply_rules_trace 0 if res_phrase
+//@ loop_proof_after apply_rules_trace 1
     assert(pv(res_phrase) =~= state_at(rules@, pv(*phrase), i + 1));
     assert(all_ok_upto(rules@, pv(*phrase), i + 1));
 //@ end
